@@ -51,17 +51,20 @@ def main():
         for (p, q) in pqs:
             ev = []
             rmse = math.sqrt(p / q)
+            # the allocation does not depend on the unit in which costs are measured: powers of two keep it exact
+            scales = [0] if (n == 3 and (p, q) != (1, 1)) else [0, -40, 24]
             for a in itertools.product(avals, repeat=n):
                 for b in itertools.product(bvals, repeat=n):
-                    vl = np.array([float(x * x) for x in a])
-                    cl = np.array([float(x * x) for x in b])
-                    try:
-                        N = [exact_int(x) for x in compute_mc_paths_giles(rmse, vl, cl)]
-                    except Exception:
-                        N = []
-                    r = {"e": "Alloc", "a": list(a), "b": list(b), "p": p, "q": q, "N": N}
-                    r["bad"] = count_bad(N)
-                    ev.append(r)
+                    for sc in scales:
+                        vl = np.array([float(x * x) for x in a])
+                        cl = np.array([float(x * x) for x in b]) * 2.0 ** sc
+                        try:
+                            N = [exact_int(x) for x in compute_mc_paths_giles(rmse, vl, cl)]
+                        except Exception:
+                            N = []
+                        r = {"e": "Alloc", "a": list(a), "b": list(b), "p": p, "q": q, "N": N, "cscale": sc}
+                        r["bad"] = count_bad(N)
+                        ev.append(r)
             for i in range(0, len(ev), 400):
                 traces.append({"tid": f"alloc_n{n}_p{p}q{q}_{i // 400}", "ev": ev[i:i + 400]})
     # stopping test on integer level means
